@@ -13,6 +13,9 @@ def run(ctx, rep):
     cg.rule_utf8_flow(rep, crates['logos_codegen'])
     cg.rule_utf8_gate(rep, crates['logos_codegen'])
     rt.rule_rounding(rep, crates['logos'], 'ws-default')
+    # both modes are fed the same bytes: str::read is the byte-level sub-slice of as_bytes() in both runtimes
+    rt.rule_read_bounds(rep, crates['logos'], 'ws-default')
+    rt.rule_read_forbid(rep, ctx.mir('logos-forbid')['logos'], 'logos-forbid')
     rt.rule_is_boundary(rep, crates['logos'], 'ws-default')     # both modes accept exactly the valid positions (incl. the end) in bump
     cg.cg_controls(rep, ctx, [('M-C12a', cg.rule_utf8_flow)])
     rep.trusted += ['rustc nightly MIR', 'engines/mirfacts', 'regex-automata: thompson::Config::utf8 semantics; regex-syntax Properties::is_utf8']
